@@ -42,6 +42,13 @@ LEDGER = {"slotSecondsUsed", "slotTaskUsage", "scoreboard", "_effort", "doneEffo
           "firstBookedSlot", "lastBookedSlot"}
 
 
+def run_extra(ctx: Ctx):
+    # ---------------------------------------------------------------- R18.9 nothing rendered is answered from state that outlives the question
+    from .common import process_state_rule
+    process_state_rule(ctx, "R18.9", [ctx.repo.func("Report.generate")],
+                       "a cell rendered under one report's settings is shown in another", census=False)
+
+
 def run(ctx: Ctx):
     repo = ctx.repo
     gen = repo.func("Report.generate")
